@@ -348,6 +348,8 @@ impl<A: Subject> LayoutVisitor<Result<Box<dyn Handle>, Error>> for AllocAB<A> {
 }
 
 pub struct Runner<A: Subject> {
+  /// minimum segment size in force (configured, or set by the last set_minimum_segment_size)
+  pub min_in_force: Option<u32>,
   // NOTE: field order matters for Drop: handles first, arena last (see Drop impl)
   pub slots: Vec<Live>,
   pub pinned: Vec<Live>,
@@ -414,6 +416,7 @@ impl<A: Subject> Runner<A> {
       vec![]
     };
     Runner {
+      min_in_force: None,
       slots: vec![],
       pinned: vec![],
       arena: Some(arena),
@@ -713,6 +716,9 @@ impl<A: Subject> Runner<A> {
         let pre = a.snap(64);
         a.set_minimum_segment_size(n);
         let post = a.snap(64);
+        if !a.read_only() {
+          self.min_in_force = Some(n);
+        }
         if or & (O_DISCARDED | O_FREELIST) != 0 {
           if a.minimum_segment_size() != n || post.min_segment_size != n {
             v.push(Viol { flag: O_FREELIST, class: "setmin".into(), msg: format!("minimum_segment_size() = {} after set({})", a.minimum_segment_size(), n) });
@@ -832,6 +838,13 @@ impl<A: Subject> Runner<A> {
     }
     if or & O_DISCARDED != 0 && monotone && post.discarded < pre.discarded {
       v.push(Viol { flag: O_DISCARDED, class: "discarded-decreased".into(), msg: format!("discarded() went {} -> {}", pre.discarded, post.discarded) });
+    }
+    // C16: the accessor reports the configured value until the caller sets another one (clear and rewind keep it)
+    if or & O_LAYOUT != 0 {
+      let want = self.min_in_force.unwrap_or(self.cfg.min_seg);
+      if self.a.minimum_segment_size() != want || post.min_segment_size != want {
+        v.push(Viol { flag: O_LAYOUT, class: "minimum-segment-size-accessor".into(), msg: format!("minimum_segment_size() = {} (header {}), in force: {}", self.a.minimum_segment_size(), post.min_segment_size, want) });
+      }
     }
   }
 
@@ -1013,6 +1026,26 @@ impl<A: Subject> Runner<A> {
             }
           } else if refs_delta > 1 {
             v.push(Viol { flag: O_RELEASE, class: "refs-on-alloc".into(), msg: format!("{} changed refs() by {}", op.short(), refs_delta) });
+          }
+        }
+        // C13: what a handle will give back on drop is its own: the buffer extent lies below the cursor and shares
+        // no byte with a listed segment or with the buffer extent of another live handle
+        if or & O_RELEASE != 0 && !self.tainted && bcap > 0 {
+          if boff + bcap > post.allocated as usize {
+            v.push(Viol { flag: O_RELEASE, class: "buffer-extent-not-own".into(), msg: format!("{}: buffer extent [{},{}) reaches above the cursor {}", op.short(), boff, boff + bcap, post.allocated) });
+          }
+          for (no, w) in &post.nodes {
+            let (no, ext) = (*no as usize, 8 + (*w >> 32) as usize);
+            if overlap(boff, bcap, no, ext) {
+              v.push(Viol { flag: O_RELEASE, class: "buffer-extent-not-own".into(), msg: format!("{}: buffer extent [{},{}) overlaps the listed segment [{},{})", op.short(), boff, boff + bcap, no, no + ext) });
+              break;
+            }
+          }
+          for l in self.all_live() {
+            if overlap(boff, bcap, l.m.2, l.m.3) {
+              v.push(Viol { flag: O_RELEASE, class: "buffer-extent-not-own".into(), msg: format!("{}: buffer extent [{},{}) overlaps the buffer extent [{},{}) of a live handle", op.short(), boff, boff + bcap, l.m.2, l.m.2 + l.m.3) });
+              break;
+            }
           }
         }
         self.slots.push(Live { h: Some(h), m, pat, needs_drop, owned, refs_delta });
@@ -1320,6 +1353,7 @@ pub struct Ckpt {
   slow_paths: u32,
   first_alloc_done: bool,
   dc: u32,
+  min_in_force: Option<u32>,
   /// state an arena keeps outside image and header: must never change
   hidden: (usize, usize, usize, usize),
 }
@@ -1343,6 +1377,7 @@ impl<A: Subject> Runner<A> {
       slow_paths: self.slow_paths,
       first_alloc_done: self.first_alloc_done,
       dc: self.dc.get(),
+      min_in_force: self.min_in_force,
       hidden: self.hidden(),
     }
   }
@@ -1377,6 +1412,7 @@ impl<A: Subject> Runner<A> {
     self.slow_paths = c.slow_paths;
     self.first_alloc_done = c.first_alloc_done;
     self.dc.set(c.dc);
+    self.min_in_force = c.min_in_force;
     self.consumed = false;
     self.ckpt_slots = if intact { c.nslots } else { 0 };
     intact
